@@ -48,6 +48,7 @@ BENIGN = [
 
 OPS = {
     "C01": [
+        op("setter-keeps-callers-dict", "fire", [(B, "        _current_constraints = dict(bond_constraints)", "        _current_constraints = bond_constraints")], ["V8"]),
         op("drop-rfree-clamp", "fire", [(D, "        order = min(order, lfree, rfree)", "        order = min(order, lfree)")], ["V5"]),
         op("le0-to-lt0", "fire", [(D, "        if lfree <= 0 or rfree <= 0:", "        if lfree < 0 or rfree < 0:")], ["V5"]),
         op("remove-self-ring-guard", "fire", [(D, "        if lidx == ridx:  # ring to the same atom forbidden\n            continue\n", "")], ["V5"]),
@@ -63,6 +64,7 @@ OPS = {
                                                "    return _current_constraints.get(key) or _current_constraints[\"?\"]")], ["V7"]),
     ],
     "C02": [
+        op("ring-symbol-not-validated-in-state-0", "fire", [(D, '            output = process_ring_symbol(symbol)\n            if output is None:\n                _raise_decoder_error(selfies, symbol)\n            ring_type, n, stereo = output\n\n            if state == 0:\n                next_state = state\n            else:\n                ring_order, next_state = next_ring_state(ring_type, state)', '            if state == 0:\n                next_state = state\n            else:\n                output = process_ring_symbol(symbol)\n                if output is None:\n                    _raise_decoder_error(selfies, symbol)\n                ring_type, n, stereo = output\n                ring_order, next_state = next_ring_state(ring_type, state)')], ["T8"]),
         op("ring-no-decrement", "fire", [(G, "    bonds_left = state - bond_order\n    next_state = None if (bonds_left == 0) else bonds_left\n    return bond_order, next_state\n\n\ndef get_index",
                                           "    bonds_left = state\n    next_state = None if (bonds_left == 0) else bonds_left\n    return bond_order, next_state\n\n\ndef get_index")], ["T3"]),
         op("branch-state-lt1", "fire", [(D, "            if state <= 1:", "            if state < 1:")], ["T4", "T2"]),
@@ -78,6 +80,7 @@ OPS = {
                                                "    if atom.bonding_capacity < 0:\n        _PROCESS_ATOM_CACHE[symbol] = (bond_info, None)\n        return None")], ["T8"]),
     ],
     "C03": [
+        op("strict-check-ignores-explicit-hydrogens", "fire", [(E, '        bond_cap = atom.bonding_capacity\n', '        bond_cap = get_bonding_capacity(atom.element, atom.charge)\n'), (E, 'from selfies.exceptions import EncoderError, SMILESParserError\n', 'from selfies.bond_constraints import get_bonding_capacity\nfrom selfies.exceptions import EncoderError, SMILESParserError\n')], ["R8"]),
         op("ring-len", "fire", [(E, "get_selfies_from_index(ring_len - 1)", "get_selfies_from_index(ring_len)")], ["R1"]),
         op("branch-len", "fire", [(E, "get_selfies_from_index(len(branch) - 1)", "get_selfies_from_index(len(branch))")], ["R2"]),
         op("double-is-3", "fire", [(S, '":": 1.5, "=": 2, "#": 3}', '":": 1.5, "=": 3, "#": 3}')], ["R3"]),
@@ -88,6 +91,9 @@ OPS = {
         op("memo-reading-table-not-cleared", "fire", [(B, "    get_bonding_capacity.cache_clear()\n", "")], ["R7"]),
     ],
     "C04": [
+        op("parity-through-a-local", "silent", [(E, "    return count % 2 != 0  # if odd permutation, should invert chirality", "    odd = (count % 2 == 1)\n    return odd")]),
+        op("ring-flag-through-helper", "silent", [(M, "        self._ring_bond_flags[a] = True\n        self._ring_bond_flags[b] = True\n", "        self._mark_ring_atom(a)\n        self._mark_ring_atom(b)\n"),
+                                                  (M, "    def update_bond_order(", "    def _mark_ring_atom(self, idx):\n        self._ring_bond_flags[idx] = True\n\n    def update_bond_order(")]),
         op("swap-table-pair", "fire", [(G, "            cache[symbol] = (order, L, (lstereo, rstereo))", "            cache[symbol] = (order, L, (rstereo, lstereo))")], ["S2"]),
         op("swap-encoder-call", "fire", [(E, "                    _ring_bonds_to_selfies(rev_bond, bond),", "                    _ring_bonds_to_selfies(bond, rev_bond),")], ["S2"]),
         op("swap-decoder-marks", "fire", [(D, "                a=lidx, a_stereo=lstereo, a_pos=rings_made[lidx],\n                b=ridx, b_stereo=rstereo, b_pos=rings_made[ridx],",
@@ -119,6 +125,7 @@ OPS = {
         op("failure-tested-with-if-else", "silent", [(E, "    if not mol.kekulize():\n        err_msg = \"kekulization failed\\n\\tSMILES: {}\".format(smiles)\n        raise EncoderError(err_msg)\n", "    if mol.kekulize():\n        pass\n    else:\n        err_msg = \"kekulization failed\\n\\tSMILES: {}\".format(smiles)\n        raise EncoderError(err_msg)\n")]),
     ],
     "C06": [
+        op("setter-keeps-callers-dict", "fire", [(B, "        _current_constraints = dict(bond_constraints)", "        _current_constraints = bond_constraints")], ["Q4"]),
         op("ge-comparator", "fire", [(E, "        if bond_count > bond_cap:", "        if bond_count >= bond_cap:")], ["Q1"]),
         op("format-no-sign", "fire", [(B, '        key += "{:+}".format(charge)', '        key += "{}".format(charge)')], ["Q2"]),
         op("drop-memo-clear", "fire", [(B, "    get_bonding_capacity.cache_clear()", "    pass")], ["Q4"]),
@@ -128,6 +135,7 @@ OPS = {
         op("break-after-first-error", "silent", [(E, "            errors.append((atom_to_smiles(atom), bond_count, bond_cap))", "            errors.append((atom_to_smiles(atom), bond_count, bond_cap))\n            break")]),
     ],
     "C07": [
+        op("setter-keeps-callers-dict", "fire", [(B, "        _current_constraints = dict(bond_constraints)", "        _current_constraints = bond_constraints")], ["A4"]),
         op("isnumeric-keys", "fire", [(B, '''                valid = ((key[:j] in ELEMENTS) and c.isascii() and c.isdigit()
                          and (c[0] != "0"))''', "                valid = (key[:j] in ELEMENTS) and c.isnumeric()")], ["A1"]),
         op("filter-ge", "fire", [(B, '        if (m > c) or (a == "?"):', '        if (m >= c) or (a == "?"):')], ["A3"]),
@@ -157,6 +165,7 @@ OPS = {
         op("remove-chain-start-check", "fire", [(S, "        elif chain_start:\n            err_msg = \"SMILES chain begins with non-atom\"\n            raise SMILESParserError(smiles, err_msg, tok.start_idx)\n\n", "")], ["EST", "X-none-deref"]),
     ],
     "C10": [
+        op("strict-check-ignores-explicit-hydrogens", "fire", [(E, '        bond_cap = atom.bonding_capacity\n', '        bond_cap = get_bonding_capacity(atom.element, atom.charge)\n'), (E, 'from selfies.exceptions import EncoderError, SMILESParserError\n', 'from selfies.bond_constraints import get_bonding_capacity\nfrom selfies.exceptions import EncoderError, SMILESParserError\n')], ["L4"]),
         op("revert-charge-pattern", "fire", [(G, "[+-][1-9][0-9]*", "[+-][1-9]+")], ["L1"]),
         op("print-H-without-count", "fire", [(S, '            builder.append("H")\n            builder.append(str(atom.h_count))', '            builder.append("H")\n            if atom.h_count != 1:\n                builder.append(str(atom.h_count))')], ["L1", "L2"]),
         op("ring-lowercase", "fire", [(E, '"[{}Ring{}]".format(', '"[{}ring{}]".format(')], ["L1"]),
@@ -183,6 +192,7 @@ OPS = {
         op("lru-on-preset-getter", "fire", [(B, "def get_preset_constraints(name: str) -> Dict[str, int]:", "@functools.lru_cache()\ndef get_preset_constraints(name: str) -> Dict[str, int]:")], ["G1"]),
     ],
     "C13": [
+        op("shared-one-hot-rows", "fire", [(U, "        letter = [0] * len(vocab_stoi)\n        letter[index] = 1", "        letter = _ROWS.setdefault((index, len(vocab_stoi)), [0] * len(vocab_stoi))\n        letter[index] = 1"), (U, "def selfies_to_encoding(", "_ROWS = {}\n\n\ndef selfies_to_encoding(")], ["N3"]),
         op("filter-moved-to-main-loop", "fire", [(D, '            if symbol == "[nop]":\n                continue\n            if compatible:', "            if compatible:"),
                                                   (D, "            index, symbol = next(symbol_iter)\n            n_derived += 1", '            index, symbol = next(symbol_iter)\n            n_derived += 1\n            if symbol == "[nop]":\n                continue')], ["N1"]),
         op("index-reader-tokenises", "fire", [(D, "    _form_rings_bilocally(mol, rings)", "    list(split_selfies(selfies))\n    _form_rings_bilocally(mol, rings)")], ["N2", "N1"]),
@@ -209,6 +219,8 @@ OPS = {
         op("no-reverse", "fire", [(G, "    return symbols[::-1]", "    return symbols")], ["I5"]),
     ],
     "C17": [
+        op("dash-not-counted-as-bond-token", "fire", [(S, "    is_root = (prev_atom is None)\n    if bond_char:\n        i += 1", "    is_root = (prev_atom is None)\n    if bond_char and bond_char != \"-\":\n        i += 1")], ["TE4"]),
+        op("bond-token-test-spelled-is-not-none", "silent", [(S, "    is_root = (prev_atom is None)\n    if bond_char:\n        i += 1", "    is_root = (prev_atom is None)\n    if bond_char is not None:\n        i += 1")]),
         op("root-depends-on-attributable", "fire", [(M, "        if mark_root:\n            self._roots.append(atom.index)", "        if mark_root and not (self._attributable and len(self) > 50):\n            self._roots.append(atom.index)")], ["NI"]),
         op("return-under-flag", "fire", [(E, '    result = ".".join(fragments), attribution_maps\n    return result if attribute else result[0]', '    if attribute:\n        return ".".join(f for f in fragments if f), attribution_maps\n    return ".".join(fragments)')], ["NI"]),
         op("count-requested-not-read", "fire", [(D, "                n_derived += n_read\n", "                n_derived += n\n")], ["TI2"]),
@@ -235,6 +247,7 @@ OPS = {
         op("offset-accumulated-in-two-steps", "silent", [(D, "        attribution_index += n\n", "        consumed = n\n        attribution_index = attribution_index + consumed\n")]),
     ],
     "C18": [
+        op("ring-symbol-not-validated-in-state-0", "fire", [(D, '            output = process_ring_symbol(symbol)\n            if output is None:\n                _raise_decoder_error(selfies, symbol)\n            ring_type, n, stereo = output\n\n            if state == 0:\n                next_state = state\n            else:\n                ring_order, next_state = next_ring_state(ring_type, state)', '            if state == 0:\n                next_state = state\n            else:\n                output = process_ring_symbol(symbol)\n                if output is None:\n                    _raise_decoder_error(selfies, symbol)\n                ring_type, n, stereo = output\n                ring_order, next_state = next_ring_state(ring_type, state)')], ["M4"]),
         op("wrong-table-entry", "fire", [(C, '("[Branch{}_2]", "[=Branch{}]")', '("[Branch{}_2]", "[#Branch{}]")')], ["M1"]),
         op("modernize-regardless-of-flag", "fire", [(D, "            if compatible:\n                symbol = modernize_symbol(symbol)", "            symbol = modernize_symbol(symbol)")], ["M5"]),
         op("flag-reassigned", "fire", [(D, "    for s in selfies.split(\".\"):", "    for s in selfies.split(\".\"):\n        compatible = compatible and \"expl\" in s")], ["M5"]),
